@@ -192,6 +192,58 @@ pub fn check_eq(c: &EqCase) -> CaseResult {
 }
 
 // ---------------------------------------------------------------------------------------------
+/// several coordinates perturbed at once
+#[derive(Clone, Debug, Serialize, Deserialize)]
+pub struct EqMulti {
+    pub ltwh: bool,
+    pub base: [f32; 5],
+    pub deltas: [f32; 5],
+}
+
+fn eq_multi() -> impl Strategy<Value = EqMulti> {
+    let d = || prop_oneof![
+        3 => Just(0.0f32),
+        3 => ((0.1f32..0.89), any::<bool>()).prop_map(|(k, n)| if n { -k * EPS } else { k * EPS }),
+        3 => ((0.6f32..0.89), any::<bool>()).prop_map(|(k, n)| if n { -k * EPS } else { k * EPS }),
+        1 => ((1.11f32..30.0), any::<bool>()).prop_map(|(k, n)| if n { -k * EPS } else { k * EPS }),
+    ];
+    (any::<bool>(), [0.25f32..2.0, 0.25f32..2.0, 0.25f32..2.0, 0.25f32..2.0, 0.25f32..2.0], [d(), d(), d(), d(), d()]).prop_map(|(ltwh, mut base, deltas)| {
+        if ltwh {
+            base[4] = 0.2 + base[4] / 4.0; // confidence inside [0,1] with room for the perturbation
+        }
+        EqMulti { ltwh, base, deltas }
+    })
+}
+
+pub fn check_eq_multi(c: &EqMulti) -> CaseResult {
+    let mut other = c.base;
+    for i in 0..5 {
+        other[i] = c.base[i] + c.deltas[i];
+    }
+    let ds: Vec<f32> = (0..5).map(|i| (other[i] - c.base[i]).abs()).collect();
+    let (ab, ba) = if c.ltwh {
+        let a = BoundingBox { left: c.base[0], top: c.base[1], width: c.base[2], height: c.base[3], confidence: c.base[4] };
+        let b = BoundingBox { left: other[0], top: other[1], width: other[2], height: other[3], confidence: other[4] };
+        (a == b, b == a)
+    } else {
+        let a = Universal2DBox::new(c.base[0], c.base[1], Some(c.base[2]), c.base[3], c.base[4]);
+        let b = Universal2DBox::new(other[0], other[1], Some(other[2]), other[3], other[4]);
+        (a == b, b == a)
+    };
+    let kind = if c.ltwh { "BoundingBox" } else { "Universal2DBox" };
+    ensure!(ab == ba, format!("eq-symmetry-{}-multi", kind), "{}: a==b is {} but b==a is {} (differences {:?})", kind, ab, ba, ds);
+    let all_within = ds.iter().all(|d| *d < 0.9 * EPS);
+    let any_beyond = ds.iter().any(|d| *d > 1.1 * EPS);
+    if all_within {
+        ensure!(ab, format!("eq-close-{}-multi", kind), "{}: boxes whose coordinates all differ by less than EPS ({:?}) compare unequal", kind, ds);
+    } else if any_beyond {
+        ensure!(!ab, format!("eq-far-{}-multi", kind), "{}: boxes with a coordinate differing by more than EPS ({:?}) compare equal", kind, ds);
+    }
+    let moved = ds.iter().filter(|d| **d > 0.0).count();
+    Ok(CaseOk::new(moved >= 2 && (all_within || any_beyond)).label_if(moved >= 2 && all_within, "several_coordinates_within_eps").label_if(any_beyond, "beyond_eps").label_if(!all_within && !any_beyond, "band"))
+}
+
+// ---------------------------------------------------------------------------------------------
 #[derive(Clone, Debug, Serialize, Deserialize)]
 pub struct AngleCase {
     pub a: f32,
@@ -269,13 +321,14 @@ fn edited_case() -> impl Strategy<Value = EditedBox> {
 }
 
 pub fn run(env: &Env, rep: &Report) {
-    rep.set_rule("boxes with positive size over 1e-2..1e4 and any angle; equality pairs differing in exactly one coordinate by +-delta across the EPS boundary, both argument orders, both box types; angles to |a|<=1e3 and around multiples of pi/2. Non-trivial: rotated polygon; equality pair outside the 0.9..1.1 EPS band with non-zero difference; angle outside [0,2pi); distinct = distinct serialized case");
+    rep.set_rule("boxes with positive size over 1e-2..1e4 and any angle; equality pairs differing in exactly one coordinate by +-delta across the EPS boundary and pairs differing in several coordinates at once (each within EPS, or one beyond), both argument orders, both box types; angles to |a|<=1e3 and around multiples of pi/2. Non-trivial: rotated polygon; equality pair outside the 0.9..1.1 EPS band with non-zero difference; angle outside [0,2pi); distinct = distinct serialized case");
     rep.assume("equality threshold is three-valued: |difference| in [0.9 EPS, 1.1 EPS] accepts either answer");
     let w = workers();
     par_generated(rep, "ltwh", ltwh_case, env.tier.pick(1_000_000, 20_000_000), w, check_ltwh);
     par_generated(rep, "polygon", poly_case, env.tier.pick(1_000_000, 20_000_000), w, check_poly);
     par_generated(rep, "edited-polygon", edited_case, env.tier.pick(500_000, 8_000_000), w, check_edited);
     par_generated(rep, "equality", eq_case, env.tier.pick(2_000_000, 40_000_000), w, check_eq);
+    par_generated(rep, "equality-multi", eq_multi, env.tier.pick(1_000_000, 20_000_000), w, check_eq_multi);
     par_generated(rep, "normalize", angle_case, env.tier.pick(1_000_000, 20_000_000), w, check_angle);
 }
 
@@ -285,6 +338,7 @@ pub fn replay(sub: &str, case: Value) -> Option<CaseResult> {
         "polygon" => Some(replay_case(case, check_poly, sub)),
         "edited-polygon" => Some(replay_case(case, check_edited, sub)),
         "equality" => Some(replay_case(case, check_eq, sub)),
+        "equality-multi" => Some(replay_case(case, check_eq_multi, sub)),
         "normalize" => Some(replay_case(case, check_angle, sub)),
         _ => None,
     }
